@@ -16,6 +16,8 @@ code->spec: seeded random larger type sets (depth <= 6, <= 10 types, services/un
             processes with different PYTHONHASHSEED (set iteration orders); judged by specs/NamespaceTreeTrace.tla.
 """
 import ast
+import contextlib
+import io
 import itertools
 import json
 import os
@@ -77,7 +79,8 @@ def dsdl_text(job, t):
 
 def write_dsdl(job, jdir):
     root = jdir / "dsdl" / job["root"]
-    for t in job["types"]:
+    root.mkdir(parents=True, exist_ok=True)  # the empty type set: a root namespace directory without definitions
+    for t in job["types"] + job.get("disk", []):
         d = root.joinpath(*t["ns"][1:])
         d.mkdir(parents=True, exist_ok=True)
         (d / ("%s.%d.%d.dsdl" % (t["short"], t["maj"], t["min"]))).write_text(dsdl_text(job, t))
@@ -231,16 +234,28 @@ def user_templates(base):
 
 
 def run_cli(argv):
+    """nnvg in-process; returns what it printed on stdout (the --list-outputs listing)"""
     import nunavut.cli
     import logging
 
     old = sys.argv
     sys.argv = ["nnvg"] + argv
+    buf = io.StringIO()
     try:
-        nunavut.cli.main()
+        with contextlib.redirect_stdout(buf):
+            nunavut.cli.main()
     finally:
         sys.argv = old
         logging.getLogger().handlers[:] = []
+    return buf.getvalue()
+
+
+def rawparts(p):
+    return list(pathlib.PurePath(str(p)).parts)
+
+
+def strip_tail(p, k):
+    return p[:len(p) - k] if 0 <= k <= len(p) else []
 
 
 def do_run(base, job, jdir, dsdl_root, by_key, run):
@@ -285,10 +300,27 @@ def do_run(base, job, jdir, dsdl_root, by_key, run):
     rec = {"id": run["rid"], "types": [{"ns": pcomps(t["ns"]), "short": cps(t["short"]), "maj": t["maj"], "min": t["min"]} for t in types],
            "strop": strop, "ext": cps(ext), "nodes": [], "pobs": True, "root": 0, "walk_types": [], "walk_ns": [], "walk_any": [], "find": [],
            "generated": False, "outdir": pcomps(relcomps(true_out, sand, sand)), "created": [], "other": [], "refs": [],
-           "given": pcomps(pathlib.PurePath(spelled).parts), "denote": []}
+           "given": pcomps(pathlib.PurePath(spelled).parts), "denote": [], "slisted": []}
     obs = {"root": None, "nodes": [], "tpaths": [[] for _ in types], "nfiles": None, "as_given": None}
     gen_mode = run.get("gen", "none")
     gen_ns_req = run.get("gen_ns")
+    tloc = os.path.realpath(str(true_out))
+
+    def add_denote(b):
+        e = {"b": pcomps(b), "ok": bool(b) and os.path.realpath(os.path.join(str(sand), *b)) == tloc}
+        if e not in rec["denote"]:
+            rec["denote"].append(e)
+
+    def add_listed(paths):
+        """paths the support generator lists / returns / prints: as spelled, and where they are relative to the output directory"""
+        for p in paths:
+            rp, rl = rawparts(p), relcomps(p, sand, true_out)
+            e = {"raw": pcomps(rp), "rel": pcomps(rl)}
+            if e not in rec["slisted"]:
+                rec["slisted"].append(e)
+                add_denote(strip_tail(rp, len(rl)))
+        return [relcomps(p, sand, true_out) for p in paths]
+
     root_ns = None
     try:
         root_ns = nunavut.build_namespace_tree(tlist, str(dsdl_root), spelled, lctx)
@@ -316,6 +348,11 @@ def do_run(base, job, jdir, dsdl_root, by_key, run):
                     by_stropped.setdefault(".".join(st[c] for c in t["ns"][:k]), set()).add(tuple(t["ns"][:k]))
 
             def dsdl_of(n):
+                if not types:
+                    return []  # the empty namespace of the empty model has no DSDL name
+                return dsdl_of_(n)
+
+            def dsdl_of_(n):
                 """the DSDL identity of a namespace object: its source folder below the root namespace directory (public duck-typed
                 property); if that is not available, its (stropped) full name where that is unambiguous"""
                 try:
@@ -336,12 +373,7 @@ def do_run(base, job, jdir, dsdl_root, by_key, run):
             def rc(p):
                 return relcomps(p, sand, true_out)
 
-            def raw(p):
-                return list(pathlib.PurePath(str(p)).parts)
-
-            def strip(p, k):
-                return p[:len(p) - k] if 0 <= k <= len(p) else []
-
+            raw, strip = rawparts, strip_tail
             nsfile = {}
             for x, p in root_ns.get_all_namespaces():
                 nsfile.setdefault(id(x), raw(p))
@@ -373,9 +405,8 @@ def do_run(base, job, jdir, dsdl_root, by_key, run):
                 for ti, p in zip(ntypes, npaths):
                     if ti and not obs["tpaths"][ti - 1]:
                         obs["tpaths"][ti - 1] = p
-            tloc = os.path.realpath(str(true_out))
             for b in bases:
-                rec["denote"].append({"b": pcomps(b), "ok": bool(b) and os.path.realpath(os.path.join(str(sand), *b)) == tloc})
+                add_denote(b)
             obs["as_given"] = bases == [list(pathlib.PurePath(spelled).parts)]
             rec["root"] = 1
             rec["walk_types"] = [tindex(t) for t, _ in root_ns.get_all_datatypes()]
@@ -404,7 +435,27 @@ def do_run(base, job, jdir, dsdl_root, by_key, run):
             rec["nodes"], rec["find"], rec["root"] = [], [], 0
     # ---- generation
     tfile = {}
-    if root_ns is not None and gen_mode != "none" and err is None:
+    if root_ns is not None and gen_mode == "support" and err is None:
+        # a support-only run: `nnvg --generate-support only` (dry-run listing, then the real run) / SupportGenerator over the model
+        try:
+            if run.get("via") == "cli":
+                argv = ["--target-language", lang, "--experimental-languages", "--outdir", spelled]
+                if run.get("ext") is not None:
+                    argv += ["--output-extension", run["ext"]]
+                argv += ["--generate-support", "only"]
+                listing = run_cli(argv + ["--list-outputs", str(dsdl_root)])
+                other = add_listed([x for x in listing.split(";") if x])
+                run_cli(argv + [str(dsdl_root)])
+            else:
+                sg = SupportGenerator(root_ns)
+                other = add_listed(list(sg.generate_all(is_dryrun=True)))
+                other += [x for x in add_listed(list(sg.generate_all(False))) if x not in other]
+            rec["generated"] = True
+            rec["other"] = [pcomps(p) for p in other]
+        except Exception as e:
+            err = "support generation: %r\n%s" % (e, traceback.format_exc()[-1500:])
+            rec["generated"] = True
+    elif root_ns is not None and gen_mode != "none" and err is None:
         try:
             kw = {}
             if gen_ns_req is not None:
@@ -425,13 +476,13 @@ def do_run(base, job, jdir, dsdl_root, by_key, run):
                 argv += ["--generate-support", "always" if run.get("support") else "never", str(dsdl_root)]
                 gen = DSDLCodeGenerator(root_ns, **kw)
                 if run.get("support"):
-                    other += [relcomps(p, sand, true_out) for p in SupportGenerator(root_ns).generate_all(is_dryrun=True)]
+                    other += add_listed(list(SupportGenerator(root_ns).generate_all(is_dryrun=True)))
                 run_cli(argv)
             else:
                 gen = DSDLCodeGenerator(root_ns, **kw)
                 gen.generate_all(False)
                 if run.get("support"):
-                    other += [relcomps(p, sand, true_out) for p in SupportGenerator(root_ns).generate_all(False)]
+                    other += add_listed(list(SupportGenerator(root_ns).generate_all(False)))
             if gen.generate_namespace_types:
                 other += [relcomps(p, sand, true_out) for _, p in root_ns.get_all_namespaces()]
             rec["generated"] = True
@@ -510,7 +561,7 @@ def worker_main(jobfile, outfile):
                 dsdl_root = write_dsdl(job, jdir)
                 types = pydsdl.read_namespace(str(dsdl_root), [])
                 by_key = {(t.full_name, t.version.major, t.version.minor): t for t in types}
-                want = {type_key(t) for t in job["types"]}
+                want = {type_key(t) for t in job["types"] + job.get("disk", [])}
                 if set(by_key) != want:
                     raise ValueError("front end returned %r, expected %r" % (sorted(by_key), sorted(want)))
             except Exception as e:
@@ -564,6 +615,8 @@ def run_jobs(ctx, jobs, tag, seeds=None):
 
 def structural_class(job):
     types = job["types"]
+    if not types:
+        return "empty"
     nss = {tuple(t["ns"]) for t in types}
     prefixes = set()
     for ns in nss:
@@ -607,7 +660,7 @@ def is_folded(rec):
 
 
 CLAUSES = ["tree.inside_outdir", "tree.type_once", "tree.ancestors", "tree.links", "tree.path_total", "tree.path_shape", "tree.injective",
-           "tree.one_file", "tree.ref_eq_gen", "tree.as_given"]
+           "tree.one_file", "tree.ref_eq_gen", "tree.as_given", "tree.support_inside", "tree.empty_model"]
 
 
 def failed_clauses(verdict):
@@ -624,7 +677,7 @@ def signature(clauses, job, run, res):
     if res.get("err"):
         cls += ",exception"
     extra = ""
-    if first in ("tree.inside_outdir", "tree.one_file", "tree.as_given"):
+    if first in ("tree.inside_outdir", "tree.one_file", "tree.as_given", "tree.support_inside"):
         extra = "|" + run.get("spell", "rel")
     return "C11|%s|%s|%s%s" % (first, run["lang"], cls, extra)
 
@@ -657,7 +710,8 @@ def judge(ctx, jobs, results):
 
 
 TRACE_CONSTANTS = {"Roots": "{}", "Names": "{}", "Shorts": "{}", "TwoVer": "{}", "MaxDepth": "0", "MaxTypes": "0", "StropMode": '"none"',
-                   "GenNsChoices": "{}", "Spellings": "{}", "CanonNs": "FALSE"}
+                   "GenNsChoices": "{}", "Spellings": "{}", "CanonNs": "FALSE",
+                   "SupportFromRootParent": "FALSE"}
 
 
 EMIT_CFGS = {
@@ -800,6 +854,13 @@ def run(ctx):
     ctx.cov["model_negative_control_2"] = ("CanonNs=TRUE (namespace paths resolved, type paths as given) refuted by invariant Refines / clause tree.as_given "
                                            "after %d states" % neg2.distinct)
 
+    # third negative control: a support generator that takes `root output_folder.parent` as its target is refuted on the empty type set
+    neg3 = tlc.run_tlc(tlc.SPECS / "NamespaceTree.tla", tlc.SPECS / "NamespaceTree_negsupport.cfg", ctx.scratch, workers=2, xmx="2g")
+    if neg3.violated != "Refines":
+        raise MachineryFailure("negative control: a support generator writing beside the root output folder was not refuted (%s %s)" % (neg3.error, neg3.violated))
+    ctx.cov["model_negative_control_3"] = ("SupportFromRootParent=TRUE refuted by invariant Refines (empty type set: support files one level above the "
+                                           "output directory) after %d states" % neg3.distinct)
+
     # ---- 2. spec -> code: every terminal state of the model replayed through the real code
     rng = ctx.rng
     jobs, rid = [], 0
@@ -822,7 +883,7 @@ def run(ctx):
         for gi, (key, cs) in enumerate(sorted(groups.items())):
             types0 = sorted(case_types(cs[0]), key=lambda t: (t["ns"], t["short"], t["maj"], t["min"]))
             pos = {type_key(t): i for i, t in enumerate(types0)}
-            job = {"jid": len(jobs), "root": types0[0]["ns"][0], "xroot": "q", "types": types0, "runs": []}
+            job = {"jid": len(jobs), "root": types0[0]["ns"][0] if types0 else "r", "xroot": "q", "types": types0, "runs": []}
             langs = MODE_LANGS[mode]
             byorder = {}
             for c in cs:
@@ -840,13 +901,15 @@ def run(ctx):
                 lang = langs[(gi + k) % len(langs)]
                 sel = (gi * 3 + k) % 8
                 gen = "builtin" if sel == 4 else ("user" if sel in (0, 2) else "none")
-                if mspell:  # the spelling cases: every other one generates with the user template that calls type_to_include_path
+                if not types0:  # the empty type set: a support-only run, through the API and through `nnvg --generate-support only`
+                    gen = "support"
+                if mspell and types0:  # the spelling cases: every other one generates with the user template that calls type_to_include_path
                     gen = "user" if sel % 2 == 0 else "none"
                 if lang in ("c", "cpp") and gen_ns and gen == "builtin":
                     gen = "user"  # c / c++ have no built-in namespace template
                 run = {"rid": rid, "order": list(order), "lang": lang, "ext": EXTS[lang][1] if sel == 2 else None, "stem": None,
                        "spell": mspell or SPELLINGS[(gi + k) % len(SPELLINGS)], "gen": gen, "gen_ns": gen_ns, "support": False,
-                       "xref": gen == "builtin", "via": "api"}
+                       "xref": gen == "builtin", "via": "cli" if gen == "support" and k % 2 else "api"}
                 job["runs"].append(run)
                 pred[rid] = ps
                 rid += 1
@@ -905,6 +968,17 @@ def run(ctx):
         if not job["types"]:
             continue
         rid = add_runs(rng, job, rid, LANGS, 1 if k % 4 else 2, ctx.quick)
+        rjobs.append(job)
+    # directed: the empty type set (support-only) for every language x every spelling x API / CLI, over a root namespace directory that is
+    # empty and over one that holds definitions which are not passed on
+    for li, lang in enumerate(LANGS):
+        job = {"jid": len(rjobs), "root": ["r", "if", "reg", "str"][li], "xroot": "q", "types": [], "runs": [],
+               "disk": [] if li % 2 else [{"ns": [["r", "if", "reg", "str"][li], "a"], "short": "T", "maj": 1, "min": 0, "kind": "struct", "deps": []}]}
+        for si, sp in enumerate(SPELLINGS):
+            for via in ("api", "cli"):
+                job["runs"].append({"rid": rid, "order": [], "lang": lang, "ext": EXTS[lang][1] if (si + li) % 4 == 0 else None, "stem": None, "spell": sp,
+                                    "gen": "support", "gen_ns": None, "support": True, "xref": False, "via": via})
+                rid += 1
         rjobs.append(job)
     seeds = [rng.randint(0, 4000000000) for _ in range(64)]
     rres = run_jobs(ctx, rjobs, "r", seeds=seeds)
@@ -996,6 +1070,10 @@ def run(ctx):
         x["rfind"] = list(x["rout"])
     m["denote"].append({"b": pcomps(["/", "elsewhere"]), "ok": True})
     muts.append(("namespace paths canonicalised while type paths keep the caller's spelling", m, "tree.as_given"))
+    m = json.loads(json.dumps(good)); m["id"] = 10
+    m["slisted"].append({"raw": m["given"][:-1] + pcomps(["nunavut", "s.h"]), "rel": pcomps(["..", "nunavut", "s.h"])})
+    m["denote"].append({"b": m["given"][:-1], "ok": False})
+    muts.append(("a support file listed one level above the output directory", m, "tree.support_inside"))
     m8 = json.loads(json.dumps(good)); m8["id"] = 8
     m8["nodes"] = m8["nodes"][:1]; m8["nodes"][0]["kids"] = []; m8["find"] = m8["find"][:1]; m8["walk_ns"] = [1]; m8["walk_types"] = []; m8["walk_any"] = []
     m8["created"].append({"p": pcomps(["stray.txt"]), "d": False})
